@@ -65,7 +65,138 @@ def source_reads(ctx, chk, rule):
     chk.floor("reads of the source", n_reads, 3)
 
 
+def plan_by_simulation(b):
+    """The read plan decided by symbolic execution of every path from the entry of read_packet to its zvt_parse call
+    (bufsim): first read = 3 bytes; header byte 2 is compared with 0xFF; on the equal edge exactly 2 more bytes are read and
+    the body read takes their little-endian u16, otherwise the body read takes header byte 2; the parser sees exactly the
+    bytes read, in order, and nothing else.  -> (ok, [problem], number of feasible paths)"""
+    import bufsim
+    import pathsym
+    parses = [(bb, t) for bb, t in b.calls() if callee(t) == "zvt_builder::ZvtParser::zvt_parse"]
+    if len(parses) != 1:
+        return False, ["expected one zvt_parse call"], 0
+    pbb, pt = parses[0]
+    paths = pathsym.simple_paths(b, 0, pbb, limit=4096)
+    problems = []
+    kinds = set()
+    n = 0
+    L = bufsim.L
+    for path in paths:
+        sim = bufsim.Sim(b)
+        try:
+            sim.run(path)
+            arg = sim.operand(pt["args"][0])
+        except bufsim.Infeasible:
+            continue
+        except Exception as e:                      # fail closed, but say why
+            problems.append("simulation error: %r" % (e,))
+            continue
+        n += 1
+        bad = []
+        rl = [(k, oid, (hi.add(lo, -1) if oid is not None else None)) for k, oid, lo, hi in sim.reads]
+        if not rl or rl[0][2] != L(3):
+            bad.append("the first read fills %r bytes, not 3" % (rl[0][2] if rl else None))
+        marker = None
+        hb = ("byte", 1, 2)
+        for (c, truth) in sim.conds:
+            _, op, a_, c_ = c
+            d = a_.add(c_, -1)
+            if set(d.t) == {hb} and abs(d.t[hb]) == 1 and op in ("Eq", "Ne"):
+                val = -d.c * d.t[hb]
+                eq = truth if op == "Eq" else not truth
+                if val == 0xFF:
+                    marker = eq
+                elif eq:
+                    bad.append("header byte 2 is compared with 0x%02X" % val)
+        if marker is None:
+            bad.append("the path does not depend on header byte 2 == 0xFF")
+        elif marker:
+            kinds.add("extended")
+            if len(rl) != 3:
+                bad.append("extended form: %d reads instead of 3" % len(rl))
+            else:
+                if rl[1][2] != L(2):
+                    bad.append("extended form: the second read fills %r bytes, not 2" % (rl[1][2],))
+                if rl[2][2] != L(0, {("le16", 2, 0): 1}):
+                    bad.append("extended form: the body read fills [%r] bytes, not the little-endian u16 of the two length bytes" % (rl[2][2],))
+        else:
+            kinds.add("short")
+            if len(rl) != 2:
+                bad.append("short form: %d reads instead of 2" % len(rl))
+            elif rl[1][2] != L(0, {hb: 1}):
+                bad.append("short form: the body read fills [%r] bytes, not header byte 2" % (rl[1][2],))
+        vb = sim.view_bounds(arg) if arg[0] in ("buf", "ref") else None
+        segs = sim.segs_between(*vb) if vb is not None else None
+        whole = vb is not None and vb[1] == L(0) and sim.obj_len(vb[0]) is not None and vb[2] == sim.obj_len(vb[0])
+        want = [(("read", k, 0), ln) for k, _, ln in rl]
+        if segs is None or not whole or [(s_[0], s_[1]) for s_ in segs] != want:
+            bad.append("the parser is given [%s], not the bytes read in order%s" % (
+                bufsim.show_segs(segs) if segs is not None else "a buffer that could not be followed",
+                (" (%s)" % "; ".join(sim.notes[:2])) if sim.notes else ""))
+        for m in bad:
+            if m not in problems:
+                problems.append(m)
+    if n and kinds != {"extended", "short"}:
+        problems.append("paths found for %s only" % sorted(kinds))
+    if not n:
+        problems.append("no feasible path from the entry to the parser")
+    return not problems, problems, n
+
+
 def rest(ctx, chk, zvt, crates):
+    # the read plan: decided on the shape the routine has on the pinned tree (fast, precise reports); a routine of another
+    # shape (helpers, a separate header array, named constants ...) is decided by simulating what it does to its buffers
+    b0 = zvt.bodies.get(RP)
+    from report import Check
+    sub = Check("C04", chk.tier, chk.seed, "", "")
+    try:
+        _rest_shape(ctx, sub, zvt, crates)
+        crashed = None
+    except Exception as e:          # the shape rules assume three reads into one Vec
+        crashed = e
+    PLAN = ("C04-b/", "C04-d/header-sizes", "C04-d/length-source", "C04-d/marker-test", "C04-d/marker-constant", "C04-c/parse-whole-buffer")
+    open_plan = [v for v in sub.violations if v["rule"].startswith(PLAN)]
+    proved = None
+    problems = []
+    if (open_plan or crashed) and b0 is not None:
+        proved, problems, n = plan_by_simulation(b0)
+        chk.analysed["read_plan_paths_simulated"] = n
+        if proved:
+            chk.note("read plan decided by buffer simulation over %d path(s) (the shape rules did not apply: %s)"
+                     % (n, sorted({v["rule"] for v in open_plan})[:5] or repr(crashed)))
+        elif crashed is not None:
+            sub.fail("C04-b/read-plan", "read_packet", "the read plan could not be established: %s" % "; ".join(problems)[:500], b0.sp())
+    elif crashed is not None:
+        raise crashed
+    viol = {}
+    for v in sub.violations:
+        viol.setdefault((v["rule"], v["instance"]), []).append(v)
+    for o in sub.obligations:
+        if o["rule"] == "floor":
+            continue                    # (re-created by chk.floor below)
+        if o.get("ok", True):
+            chk.ok(o["rule"], o["instance"], o.get("detail", ""), o.get("site"), o.get("nontrivial", True))
+            continue
+        if proved and o["rule"].startswith(PLAN):
+            chk.ok(o["rule"], o["instance"], "decided by buffer simulation: first read 3 bytes; marker 0xFF -> 2 bytes + body of their "
+                   "little-endian u16, else body of header byte 2; the parser sees exactly the bytes read, in order", o.get("site"))
+            continue
+        vs = viol.get((o["rule"], o["instance"])) or [None]
+        v = vs.pop(0) if vs else None
+        msg = (v or {}).get("message", o.get("detail", ""))
+        if proved is False and o["rule"].startswith(PLAN):
+            msg += " [buffer simulation: %s]" % "; ".join(problems)[:300]
+        chk.fail(o["rule"], o["instance"], msg, o.get("site"), (v or {}).get("path"), (v or {}).get("key"))
+    for nt in sub.notes:
+        chk.note(nt)
+    for k, v in sub.analysed.items():
+        chk.analysed.setdefault(k, v)
+    for name, counted, floor in sub.floors:
+        if name != "floor":
+            chk.floor(name, counted, floor)
+
+
+def _rest_shape(ctx, chk, zvt, crates):
     b = zvt.bodies.get(RP)
     if not chk.require(b is not None, "C04/anchor", "read_packet", "read_packet body not found", "", nontrivial=False):
         return
@@ -202,12 +333,15 @@ def rest(ctx, chk, zvt, crates):
             i, tg = br
             brk = tg.get(1)
             cont = tg.get(0)
-            reach_brk = b.reachable(brk) if brk is not None else set()
+            # (reachability follows known Ok/Err values through `?`: the Err that a helper hands to its caller's `?`
+            # cannot take the caller's success edge)
+            from mirlite import feasible_reach
+            reach_brk = feasible_reach(b, brk) if brk is not None else set()
             chk.require(pbb not in reach_brk, "C04-c/eof-is-error", "read #%d" % (k + 1),
                         "after a failed read (EOF / I/O error) the parser is still reached: a truncated packet could be returned",
                         "failure edge never reaches zvt_parse", rt.get("sp"))
             if k != 1:
-                chk.require(pr.edge_dominates(i, cont, pbb), "C04-c/parse-after-read", "read #%d" % (k + 1),
+                chk.require(pbb not in feasible_reach(b, 0, cut_edges=[(i, cont)]), "C04-c/parse-after-read", "read #%d" % (k + 1),
                             "the parser can run without this read having succeeded", "success edge dominates zvt_parse", rt.get("sp"))
         a = strip_ref(vx.operand(pt["args"][0], pbb))
         while a[0] == "call" and a[1].endswith("Deref::deref"):
